@@ -510,9 +510,53 @@ fn edited_view_case(g: &mut Gen, ctx: &mut Ctx) -> CaseResult {
     Ok(())
 }
 
+/// Whatever the decoder accepts (messages with one planted fault — most must be rejected, which is
+/// C08/C09's business): the protected bytes it retains are the content of the protected byte string
+/// as received, read off the wire by the harness' own reader, and they are what it writes back.
+fn accepted_any_case(g: &mut Gen, ctx: &mut Ctx) -> CaseResult {
+    let kind = *g.pick(&[Kind::Sign1, Kind::Mac0, Kind::Encrypt0, Kind::Signature, Kind::Recipient]);
+    let item = gen_msg(g, kind, &mut Faults::one(), 1);
+    let o = if g.bool() { StyleOpts::NONE } else { StyleOpts::ALL };
+    let (bytes, _) = styled(&item, g, o);
+    let slots = match crate::cbor::read_lenient(&bytes) {
+        Ok(Item::Array(a)) => a,
+        _ => return Ok(()),
+    };
+    let w = match slots.first().and_then(|x| x.as_bytes()) {
+        Some(w) => w.clone(),
+        None => return Ok(()),
+    };
+    let retained: Option<Vec<u8>> = match kind {
+        Kind::Sign1 => CoseSign1::from_slice(&bytes).ok().map(|v| (v.protected.original_data.clone(), v.to_vec())),
+        Kind::Mac0 => CoseMac0::from_slice(&bytes).ok().map(|v| (v.protected.original_data.clone(), v.to_vec())),
+        Kind::Encrypt0 => CoseEncrypt0::from_slice(&bytes).ok().map(|v| (v.protected.original_data.clone(), v.to_vec())),
+        Kind::Signature => CoseSignature::from_slice(&bytes).ok().map(|v| (v.protected.original_data.clone(), v.to_vec())),
+        _ => CoseRecipient::from_slice(&bytes).ok().map(|v| (v.protected.original_data.clone(), v.to_vec())),
+    }
+    .map(|(od, out)| -> Result<Vec<u8>, String> {
+        let od = od.ok_or("accepted message without retained protected bytes")?;
+        let out = out.map_err(|e| format!("accepted message fails to re-encode: {:?}", e))?;
+        let back = elem(&out, 0)?;
+        if back != od {
+            return Err(format!("re-encoding carries {} in the protected slot, retained {}", hex_trunc(&back, 60), hex_trunc(&od, 60)));
+        }
+        Ok(od)
+    })
+    .transpose()?;
+    if let Some(od) = retained {
+        ctx.classf(format!("accepted-any:{}", kind.name()));
+        ctx.nontrivial(hash_str(&format!("aa|{}", hex_trunc(&bytes, 400))));
+        ensure!(od == w, "accepted {}: retained protected bytes {} differ from the received ones {} ({})", kind.name(), hex_trunc(&od, 60), hex_trunc(&w, 60), hex_trunc(&bytes, 80));
+    }
+    Ok(())
+}
+
 fn case(g: &mut Gen, ctx: &mut Ctx) -> CaseResult {
     if g.ratio(1, 12) {
         return copy_case(g, ctx);
+    }
+    if g.ratio(1, 10) {
+        return accepted_any_case(g, ctx);
     }
     if g.ratio(1, 10) {
         return edited_view_case(g, ctx);
